@@ -134,14 +134,18 @@ Fixpoint read_digits (acc : Z) (n : nat) (s : bytes) : Z * nat * bytes :=
   | [] => (acc, n, [])
   end.
 
+(** optional sign *)
+Definition read_sign (s : bytes) : bool * bytes :=
+  match s with
+  | c :: r => if Byte.eqb c c_minus then (true, r)
+              else if Byte.eqb c c_plus then (false, r) else (false, s)
+  | [] => (false, s)
+  end.
+
 (** [int(token)] for ASCII tokens: optional sign, at least one digit, nothing else
     (underscore separators of Python 3.6+ are not modelled) *)
 Definition parse_int (s : bytes) : option Z :=
-  let '(neg, s1) := match s with
-                    | c :: r => if Byte.eqb c c_minus then (true, r)
-                                else if Byte.eqb c c_plus then (false, r) else (false, s)
-                    | [] => (false, s)
-                    end in
+  let '(neg, s1) := read_sign s in
   match read_digits 0 0 s1 with
   | (_, O, _) => None
   | (v, _, []) => Some (if neg then - v else v)
@@ -183,45 +187,46 @@ Definition dec_shift (m : Z) (nf : nat) (e : Z) : dec :=
   else let en := Z.to_nat e in
        if (en <=? nf)%nat then mkdec m (nf - en) else mkdec (m * 10 ^ Z.of_nat (en - nf)) 0.
 
+(** digits* ( . digits* )? with at least one digit: value of all digits read as one integer,
+    number of digits after the point, rest *)
+Definition read_mantissa (s : bytes) : option (Z * nat * bytes) :=
+  let '(ip, ni, s2) := read_digits 0 0 s in
+  match s2 with
+  | c :: r =>
+      if Byte.eqb c c_dot then
+        let '(m, nf, s3) := read_digits ip 0 r in
+        match (ni + nf)%nat with O => None | _ => Some (m, nf, s3) end
+      else match ni with O => None | _ => Some (ip, O, s2) end
+  | [] => match ni with O => None | _ => Some (ip, O, []) end
+  end.
+(** ( [eE] [+-]? digits+ )? then end of token *)
+Definition read_exponent (s : bytes) : option Z :=
+  match s with
+  | [] => Some 0
+  | c :: r =>
+      if is_e c then
+        let '(neg, r1) := read_sign r in
+        match read_digits 0 0 r1 with
+        | (_, O, _) => None
+        | (e, _, []) => Some (if neg then - e else e)
+        | _ => None
+        end
+      else None
+  end.
+
 (** [float(token)] on ASCII tokens without surrounding white space, restricted to the decimal
     grammar  [+-]? digits* ( . digits* )? ( [eE] [+-]? digits+ )?  with at least one mantissa digit.
     "inf"/"nan"/underscores are not modelled (the model answers None = "raises"). The result is
     the exact decimal; CPython's correctly rounded conversion to binary64 is outside the model. *)
 Definition parse_dec (s : bytes) : option dec :=
-  let '(neg, s1) := match s with
-                    | c :: r => if Byte.eqb c c_minus then (true, r)
-                                else if Byte.eqb c c_plus then (false, r) else (false, s)
-                    | [] => (false, s)
-                    end in
-  let '(ip, ni, s2) := read_digits 0 0 s1 in
-  let '(m, nf, s3) := match s2 with
-                      | c :: r => if Byte.eqb c c_dot then read_digits ip 0 r else (ip, O, s2)
-                      | [] => (ip, O, s2)
-                      end in
-  let nd := match s2 with
-            | c :: r => if Byte.eqb c c_dot then (ni + nf)%nat else ni
-            | [] => ni
-            end in
-  match nd with
-  | O => None
-  | _ =>
-    let sm := if neg then - m else m in
-    match s3 with
-    | [] => Some (mkdec sm nf)
-    | c :: r =>
-        if is_e c then
-          let '(eneg, r1) := match r with
-                             | c' :: r' => if Byte.eqb c' c_minus then (true, r')
-                                           else if Byte.eqb c' c_plus then (false, r') else (false, r)
-                             | [] => (false, r)
-                             end in
-          match read_digits 0 0 r1 with
-          | (_, O, _) => None
-          | (e, _, []) => Some (dec_shift sm nf (if eneg then - e else e))
-          | _ => None
-          end
-        else None
-    end
+  let '(neg, s1) := read_sign s in
+  match read_mantissa s1 with
+  | None => None
+  | Some (m, nf, s3) =>
+      match read_exponent s3 with
+      | None => None
+      | Some e => Some (dec_shift (if neg then - m else m) nf e)
+      end
   end.
 
 Fixpoint map_opt {A B} (f : A -> option B) (l : list A) : option (list B) :=
